@@ -296,6 +296,57 @@ func runC10x(r *emit.Rand) {
 		}
 		c.Close()
 	}
+	// an exchange the proxy has to refuse (Host that cannot be turned into a target) whose BODY looks like a request,
+	// followed by a real exchange: the body is payload of the first exchange and of nothing else
+	for i, badHost := range []string{"host:abc", "[::1", "exa mple.test", "h%zz"} {
+		for _, chunked := range []bool{false, true} {
+			c, _, err := env.DialTunnel(env.Origin.Addr, "127.0.0.1", 8*time.Second)
+			if err != nil {
+				panic(err)
+			}
+			smug := fmt.Sprintf("/smuggled-%d-%v", i, chunked)
+			real := fmt.Sprintf("/real-%d-%v/a1", i, chunked)
+			inner := "GET " + smug + " HTTP/1.1\r\nHost: " + env.Origin.Addr + "\r\n\r\n"
+			first := "POST /upload HTTP/1.1\r\nHost: " + badHost + "\r\n"
+			if chunked {
+				first += "Transfer-Encoding: chunked\r\n\r\n" + fmt.Sprintf("%x\r\n%s\r\n0\r\n\r\n", len(inner), inner)
+			} else {
+				first += fmt.Sprintf("Content-Length: %d\r\n\r\n%s", len(inner), inner)
+			}
+			env.Origin.ResetLog()
+			c.Send([]byte(first), 5*time.Second)
+			total++
+			dist["refused-with-body-then-next"]++
+			det := map[string]any{"first": "POST /upload with Host: " + badHost + " and a body that looks like GET " + smug, "chunked_body": chunked, "second": "GET " + real}
+			r1, err1 := c.Read("POST", 5*time.Second)
+			if err1 != nil {
+				// the proxy may close the tunnel instead of answering; then nothing may follow
+				c.Close()
+			} else {
+				det["first_status"] = r1.Status
+				if !r1.Close {
+					c.Send(env.TunnelRequest("GET", real, nil, nil), 5*time.Second)
+					r2, err2 := c.Read("GET", 5*time.Second)
+					if err2 != nil {
+						fail("refused-with-body-then-next", det, fmt.Sprintf("the exchange after a refused request on the same tunnel got no response: %v", err2))
+					} else if r2.Header.Get("X-Target") != real {
+						det["second_status"] = r2.Status
+						det["second_x_target"] = r2.Header.Get("X-Target")
+						det["second_body"] = trunc(string(r2.Body))
+						fail("refused-with-body-then-next", det, "the exchange after a refused request was not answered with its own response (the refused request's body was read as a request)")
+					}
+				}
+				c.Close()
+			}
+			for _, lr := range env.Origin.Log() {
+				if strings.Contains(lr.Target, "smuggled") {
+					det["origin_saw"] = lr.Method + " " + lr.Target
+					fail("refused-with-body-then-next", det, "the origin received a request the client never sent: the body of a refused request was parsed as the next request of the tunnel")
+					break
+				}
+			}
+		}
+	}
 	env.Close()
 	os.RemoveAll(dir)
 }
